@@ -25,7 +25,7 @@ RULE = (
 )
 ASSUMPTIONS = [
     "SI value of a quantity = magnitude x exact size of its unit in root units (vf.sizes)",
-    "tolerances (DESIGN 2.9): * / ** rel 1e-9; + - == < over shipped definitions 1e-5 x total degree relative to the larger operand; mixed-base prefixes 1e-9",
+    "tolerances: * / ** rel 1e-12 (DESIGN 2.9 first said 1e-9; float rounding is 1e-16 and a maintainer's math.isclose default is 1e-9); + - == < over shipped definitions 1e-5 x total degree relative to the larger operand; mixed-base prefixes 1e-9",
     "a pair is a tie when the exact values differ by less than the applicable tolerance; ties get no order/equality clause",
     "ConversionNotFound in + - (one direction only is possible) is not a violation of this property",
 ]
@@ -163,7 +163,7 @@ def run_case(case) -> core.Outcome:
         out.classes.append(f"{fam}:undetermined-or-out-of-range")
         return out
     approx = fam == "info"
-    base_tol = 1e-9
+    base_tol = 1e-12  # products, quotients and powers involve no conversion: float rounding only
     ma2, mb2 = _reexpress(c, ma, A, A2, approx), _reexpress(c, mb, B, B2, approx)
     if ma2 is None or mb2 is None:
         out.classes.append(f"{fam}:undetermined-or-out-of-range")
@@ -177,7 +177,8 @@ def run_case(case) -> core.Outcome:
             # magnitudes whose products / 4th powers would leave the double range
             out.inconclusive = "float-range"
             return out
-    a, a2, b, b2 = ma * A, ma2 * A2, mb * B, mb2 * B2
+    # the same values, obtained in different ways (fresh / already used / through unary operators)
+    a, a2, b, b2 = ma * A, convgen.quantity(ma2, A2, A, classes=out.classes), mb * B, convgen.quantity(mb2, B2, B)
     sa, sb = _si(c, a, approx), _si(c, b, approx)
     if sa is None or sb is None:
         out.invalid = True
